@@ -71,6 +71,14 @@ func parseTimeZone(tz string) (*time.Location, error) {
 		return nil, fmt.Errorf("invalid timezone")
 	}
 
+	// the remaining characters must be decimal digits
+	// (Atoi would also accept a sign).
+	for _, ch := range tz[1:] {
+		if ch < '0' || ch > '9' {
+			return nil, fmt.Errorf("invalid timezone")
+		}
+	}
+
 	// take the first two digits as "HH"
 	hours, err := strconv.Atoi(tz[1:3])
 	if err != nil {
